@@ -34,6 +34,11 @@ fn compatible(l: &Loaded, limited: &Option<Solution<I>>, full: &Option<Solution<
         (None, _) => Err("limited solve says 'No possible solution' but the full answer differs".into()),
         (Some(Solution::Unique(_)), _) => Err("limited solve gives a Unique answer that is not the full answer".into()),
         (Some(Solution::Ambig(Guidance::Unknown)), _) | (Some(Solution::Ambig(Guidance::Suggested(_))), _) => Ok(()),
+        // definite guidance is a claim about every solution; when the full answer gives no such guidance the limited
+        // answer is not weaker but stronger
+        (Some(Solution::Ambig(Guidance::Definite(_))), Some(Solution::Ambig(Guidance::Unknown))) | (Some(Solution::Ambig(Guidance::Definite(_))), Some(Solution::Ambig(Guidance::Suggested(_)))) => {
+            Err("limited solve claims definite guidance that the full answer does not give".into())
+        }
         (Some(Solution::Ambig(Guidance::Definite(d))), Some(f)) => match subst_of(f) {
             // definite guidance must generalise the full answer's definite substitution
             Some(fs) => match crate::props::c04::is_instance_of_pub(&fs, d, &*l.program) {
